@@ -28,6 +28,7 @@ type peerClient struct {
 	conv             uint32
 	ep               *Endpoint // current client session
 	srv              *Endpoint // server-side session, once accepted
+	midRead          int64     // bytes delivered at the midpoint of the long accept stall
 	accepts          int
 	gen              int // reconnect generation
 	closedAt         time.Duration
@@ -52,7 +53,13 @@ type peersWorld struct {
 	mu             sync.Mutex
 	oobGot         []oobGot
 	mode           IOMode
+
+	longStallAfter int // accept this many peers, then stall for longStall (0 = never)
+	nAccepted      int
+	longStalled    bool
 }
+
+const longStall = 2 * time.Minute
 
 func scenPeers(r *Run) {
 	s := r.S
@@ -74,6 +81,12 @@ func scenPeers(r *Run) {
 	if o.Link.BaseUs > 50000 {
 		o.Link.BaseUs = 50000
 	}
+	if r.Spec.Stratum == "backlog" {
+		// (the progress oracle of the long stall must not be at the mercy of a run
+		// of consecutive losses of one segment)
+		o.Link.BaseUs = max(o.Link.BaseUs, 5000)
+		o.Link.LossPM = min(o.Link.LossPM, 50)
+	}
 	crossConv := r.Spec.Stratum == "reconnect-fec"
 	if crossConv {
 		// provokes and reports the recorded finding: FEC on, clients that reconnect
@@ -85,8 +98,16 @@ func scenPeers(r *Run) {
 		o.Link.LossPM = 100 + t.Choose(ps, 200)
 	}
 	nClients := 1 + t.Choose(ps, 8)
+	longStallAfter := 0
 	if r.Spec.Stratum == "backlog" {
 		nClients = 120 + t.Choose(ps, 40)
+		if t.Chance(ps, 600) {
+			// the application accepts a few peers and then stops accepting for two
+			// minutes while more peers than the backlog holds keep arriving: the
+			// sessions it has must not be stalled by the ones it has not
+			longStallAfter = 1 + t.Choose(ps, 5)
+			nClients = longStallAfter + 129 + t.Choose(ps, 30)
+		}
 	}
 	s.MaxVirtual = 20 * time.Minute
 	s.MaxSteps = 300000
@@ -100,6 +121,7 @@ func scenPeers(r *Run) {
 	w.Listen()
 	pw := &peersWorld{r: r, s: s, w: w, byAddr: map[string]*peerClient{}, forgedHosts: map[string]bool{}, oob: oob}
 	pw.stallPM = 0
+	pw.longStallAfter = longStallAfter
 	if t.Chance(ps, 400) || r.Spec.Stratum == "backlog" {
 		pw.stallPM = 100 + t.Choose(ps, 500)
 	}
@@ -147,7 +169,16 @@ func scenPeers(r *Run) {
 			c.target = int64(1 + t.Choose(ps, 3000))
 		}
 		pw.clients = append(pw.clients, c)
-		at += time.Duration(t.Skewed(ps, 0, 200000)) * time.Microsecond
+		if longStallAfter > 0 {
+			// everybody arrives within about a second, and the first ones have enough
+			// to send to be still at it when the backlog overflows
+			if i < longStallAfter {
+				c.target = 300000 + int64(t.Choose(ps, 700000))
+			}
+			at += time.Duration(t.Skewed(ps, 0, 5000)) * time.Microsecond
+		} else {
+			at += time.Duration(t.Skewed(ps, 0, 200000)) * time.Microsecond
+		}
 		s.At(at+time.Duration(i), "connect", func() { pw.connect(c) })
 	}
 	pw.acceptor = s.NewActor("acceptor")
@@ -252,9 +283,48 @@ func (pw *peersWorld) acceptLoop() {
 			pause = time.Duration(s.Tape.Skewed(ps, 0, 2000000)) * time.Microsecond
 			s.Stats.Fault("acceptor-stall")
 		}
+		var established []*peerClient
+		if pw.longStallAfter > 0 && !pw.longStalled && pw.nAccepted >= pw.longStallAfter {
+			pw.longStalled = true
+			pause = longStall
+			s.Stats.Fault("acceptor-long-stall")
+			for _, c := range pw.clients {
+				if c.srv != nil && c.gen == 0 && !c.reconnectPending {
+					established = append(established, c)
+				}
+			}
+			s.L.Logf("the application stops accepting for %v with %d session(s) established", longStall, len(established))
+			s.After(longStall/2, "long-stall-midpoint", func() {
+				for _, c := range established {
+					if c.srv != nil {
+						c.midRead = c.srv.In.Read
+					}
+				}
+			})
+		}
 		s.After(pause, "accept", func() {
 			if pw.acceptor.Busy() || w.TearingDown {
 				return
+			}
+			if established != nil && s.Viol == nil {
+				n, capacity := w.L.VerifBacklog()
+				if n == capacity {
+					s.Stats.Probe("backlog-full-during-long-stall")
+				}
+				for _, c := range established {
+					if c.gen != 0 || c.srv == nil || c.srv.Closed || c.ep.CloseInvoked {
+						continue
+					}
+					// no completion time is demanded (tiny writes at a 100 ms flush interval are
+					// slow), only that a whole minute does not pass without a byte delivered
+					if c.srv.In.Read < c.srv.In.Target && c.srv.In.Read == c.midRead {
+						s.Fail("C11", "isolation", "established-session-stalled-by-unaccepted-peers", "while the application did not accept for %v (backlog %d of %d), the established session of peer %s delivered nothing during the last %v: it stands at %d of %d bytes", longStall, n, capacity, c.addr, longStall/2, c.srv.In.Read, c.srv.In.Target)
+						return
+					}
+					if c.srv.In.Read < c.srv.In.Target {
+						s.Stats.Probe("established-session-progressing-during-long-stall")
+					}
+				}
 			}
 			l := w.L
 			pw.acceptor.Do("Accept", func() any {
@@ -292,6 +362,7 @@ func (pw *peersWorld) acceptLoop() {
 					return
 				}
 				c.accepts++
+				pw.nAccepted++
 				if conv != c.conv {
 					s.Fail("C11", "accept", "wrong-conversation", "accepted session from %s has conv %d, the peer at that address uses %d", addr, conv, c.conv)
 				}
